@@ -575,7 +575,9 @@ def headers_table(ctx, rid, part):
                   b"PATH_INFO: /p", b"X_OTHER: 1\r\nHost: x", b"Host: x",
                   # the hyphen spelling of a forwarder header next to the forwarder's own (one environ variable for both)
                   b"Script-Name: /evil\r\nSCRIPT_NAME: /admin", b"SCRIPT_NAME: /admin\r\nScript-Name: /evil", b"Remote-User: admin\r\nREMOTE_USER: alice\r\nHost: x",
-                  b"Script-Name: /a\r\nScript-Name: /b", b"SCRIPT_NAME: /a\r\nSCRIPT_NAME: /b"]
+                  b"Script-Name: /a\r\nScript-Name: /b", b"SCRIPT_NAME: /a\r\nSCRIPT_NAME: /b",
+                  # ... and two *mixed* spellings, neither of them the all-hyphen one (both admitted under forwarder_headers = *)
+                  b"X-Forwarded_For: 203.0.113.7\r\nX_Forwarded-For: 127.0.0.1", b"X_A-B: 1\r\nX-A_B: 2\r\nHost: x", b"X_A_B: 1\r\nX-A-B: 2\r\nX_A-B: 3"]
         for ov in ({}, {"peer": ("10.0.0.9", 1)}, {"peer": ""}, {"forwarded_allow_ips": ("*",), "peer": ("10.0.0.9", 1)}, {"from_trailer": True}, {"forwarder_headers": ("*",)},
                    {"forwarder_headers": ("*",), "peer": ("10.0.0.9", 1)}, {"forwarded_allow_ips": (), "peer": ("127.0.0.1", 5)}, {"header_map": "refuse", "peer": ("10.0.0.9", 1)}, {"scheme": "https", "peer": ("10.0.0.9", 1)},
                    {"header_map": "refuse"}, {"header_map": "refuse", "forwarder_headers": ("REMOTE_USER",)}, {"header_map": "dangerous", "forwarder_headers": ("*",)}):
@@ -665,7 +667,8 @@ def request_line_table(ctx, rid, configs=((False, False, False),), fields=False,
         if not ((1, 0) <= v < (2, 0)) and not pv:
             return "reject"
         return (method, target, v)
-    lines = [b"GET / HTTP/1.1", b"GET /a?b=1#f HTTP/1.0", b"POST /x HTTP/1.9", b"OPTIONS * HTTP/1.1", b"CONNECT h:443 HTTP/1.1", b"GET http://h/p?q HTTP/1.1",
+    lines = [b"GET //a\tb/c HTTP/1.1", b"GET //a\x01b HTTP/1.1", b"GET //a/b?x\ry HTTP/1.1", b"GET //a/b HTTP/1.1", b"GET //a\x7fb HTTP/1.1",    # (the '//' form takes its own branch in split_request_uri)
+             b"GET / HTTP/1.1", b"GET /a?b=1#f HTTP/1.0", b"POST /x HTTP/1.9", b"OPTIONS * HTTP/1.1", b"CONNECT h:443 HTTP/1.1", b"GET http://h/p?q HTTP/1.1",
              b"get / HTTP/1.1", b"Get / HTTP/1.1", b"G#T / HTTP/1.1", b"GO / HTTP/1.1", b"A" * 20 + b" / HTTP/1.1", b"A" * 21 + b" / HTTP/1.1", b" / HTTP/1.1", b"GET", b"GET /", b"",
              b"GET  HTTP/1.1", b"GET / HTTP/1.1 ", b"GET /a b HTTP/1.1", b"GET  / HTTP/1.1", b" GET / HTTP/1.1", b"GET\t/ HTTP/1.1", b"GET /\tHTTP/1.1",
              b"GET / HTTP/0.9", b"GET / HTTP/2.0", b"GET / HTTP/3.0", b"GET / HTTP/1.10", b"GET / HTTP/11.1", b"GET / http/1.1", b"GET / HTTP/1.1x", b"GET / xHTTP/1.1", b"GET / HTTP/1,1",
